@@ -228,11 +228,14 @@ func runSupervisor(oracle, in, outPath string, workers int) {
 		go func() {
 			defer wg.Done()
 			var cmd *exec.Cmd
+			var errBuf *tailBuffer
 			var stdin io.WriteCloser
 			var stdout *bufio.Reader
 			start := func() {
 				cmd = exec.Command(self, "worker", "-oracle", oracle)
-				cmd.Stderr = io.Discard
+				cmd.Env = append(os.Environ(), "GORACE=halt_on_error=1 exitcode=66")
+				errBuf = &tailBuffer{max: 6000}
+				cmd.Stderr = errBuf
 				stdin, _ = cmd.StdinPipe()
 				so, _ := cmd.StdoutPipe()
 				stdout = bufio.NewReaderSize(so, 1<<24)
@@ -278,7 +281,18 @@ func runSupervisor(oracle, in, outPath string, workers int) {
 						st = werr.Error()
 					}
 					cmd = nil
-					v := Verdict{ID: c.ID, Query: c.Query, Oracle: oracle, Crash: "worker died: " + r.err.Error() + " " + st, Native: true}
+					msg := errBuf.String()
+					if i := strings.Index(msg, "WARNING: DATA RACE"); i >= 0 {
+						msg = msg[i:]
+					} else if i := strings.Index(msg, "panic:"); i >= 0 {
+						msg = msg[i:]
+					} else if i := strings.Index(msg, "fatal error:"); i >= 0 {
+						msg = msg[i:]
+					}
+					if len(msg) > 1500 {
+						msg = msg[:1500]
+					}
+					v := Verdict{ID: c.ID, Query: c.Query, Oracle: oracle, Crash: "worker died: " + r.err.Error() + " " + st + " | " + strings.ReplaceAll(msg, "\n", " | "), Native: true}
 					b, _ := json.Marshal(v)
 					emit(b)
 					continue
@@ -290,4 +304,30 @@ func runSupervisor(oracle, in, outPath string, workers int) {
 	}
 	wg.Wait()
 	ow.Flush()
+}
+
+// tailBuffer keeps the first bytes written to it (enough for a panic / race header).
+type tailBuffer struct {
+	mu  sync.Mutex
+	buf []byte
+	max int
+}
+
+func (t *tailBuffer) Write(p []byte) (int, error) {
+	t.mu.Lock()
+	defer t.mu.Unlock()
+	if len(t.buf) < t.max {
+		n := t.max - len(t.buf)
+		if n > len(p) {
+			n = len(p)
+		}
+		t.buf = append(t.buf, p[:n]...)
+	}
+	return len(p), nil
+}
+
+func (t *tailBuffer) String() string {
+	t.mu.Lock()
+	defer t.mu.Unlock()
+	return string(t.buf)
 }
